@@ -128,7 +128,8 @@ CHECKS = {
    note=TB + "All C03 theorems closed under the global context. Tie: real Aggregate.build runs (N<=6, mult 0-2, integer parameters, "
         "three coupling input modes) with elsigs/which_band/Nb/H/DD/TrDMOp compared by = inside Coq; permuted molecule lists; builds "
         "under unit contexts (1e-12); raw elsignatures calls up to 4 levels; dipole-dipole geometries (1e-12, sqrt an oracle with "
-        "RR^2 = R.R monitored). Multi-level sites: enumeration only (matrix elements with sqrt factors transcribed, not tied); "
+        "RR^2 = R.R monitored); lifecycle: the site-basis operators handed out after diagonalize(), inside/after eigenbasis_of(H), "
+        "after a second build() and rebuild() are re-checked (bit-equal snapshot, second in-Coq tie, DD = S^T D S). Multi-level sites: enumeration only (matrix elements with sqrt factors transcribed, not tied); "
         "fem_full not covered; asymmetric coupling matrices are refused by the code and outside the quantifier.",
    design="7/C03", technique="Coq proof (induction over the level-by-level generator, lia/nia, ring over an abstract *-ring, field over an abstract field) + exact in-Coq correspondence"),
  "C10": dict(
@@ -142,7 +143,8 @@ CHECKS = {
         "exp of a 100x100 matrix and enter the model as oracle data.",
    note=TB + "All C10 theorems closed under the global context. Tie: real Aggregate.build runs with 1-3 molecules, 0-2 modes, 1-3 "
         "levels per mode (Ntot <= 36 quick / 60 thorough): state list, Nb, diagonal of H exact; off-diagonal H, DD and FC products "
-        "within 1e-12 relative with the model over Q fed the real parts of the implementation's own FC tables (imaginary parts <= "
+        "within 1e-12 relative (aggregates built, changed through set_HR and built again / rebuilt are compared with fresh builds) "
+        "with the model over Q fed the real parts of the implementation's own FC tables (imaginary parts <= "
         "1e-12 monitored); raw vsignatures cases exact. Full vibrational space only: the truncated generators (vibgen_approx) raise "
         "AttributeError (numpy.int) on the pinned NumPy and are excluded by the property.",
    design="7/C10", technique="Coq proof (induction over mode lists, ring over an abstract *-ring with the FC table as a Section variable) + in-Coq correspondence (exact state lists, 1e-12 matrix elements)"),
@@ -159,7 +161,8 @@ CHECKS = {
         "recover law on floats (bit exact for power-of-two cut-offs, one rounding otherwise). Known finding (not repaired): "
         "get_RelaxationTensor('mR') leaves sbi.CC transformed.",
    note=TB + "All C15 theorems closed under the global context. The model is data flow only; kernels are uninterpreted. Tie: random "
-        "histories (5-12 API calls on one shared dimer/trimer world) with the call list, the changed-field list per call and the "
+        "histories (5-12 API calls on one shared dimer/trimer world whose propagators partly carry their own step refinement; tensor "
+        "and rate-matrix calls made inside none / 1/cm / eV unit contexts) with the call list, the changed-field list per call and the "
         "equality class of each result compared exactly with Model.C15.trace (repaired and pinned variants); any unmodelled changed "
         "attribute is a violation. Non-equilibrium Foerster, field-driven propagation and get_kernel are not exercised.",
    design="7/C15", technique="Coq proof (effect model, symbolic execution proved sound + reflection over all call shapes, induction over histories) + differential deep-snapshot correspondence"),
@@ -285,7 +288,7 @@ CHECKS = {
         "sum over all hfft points is n 2 Re a(0) independent of couplings and line shapes; S (S^-1 X S) S^-1 = X (inputs handed back "
         "unchanged in exact arithmetic). Validated only: hfft computes its defining sum (oracle, 1e-10); g(t) from the code's own c2g and "
         "eigenvectors from eigh; the sum rule restricted to the returned window (2e-3); scaling of a molecule's spectrum (2e-4).",
-   note=TB + "All C11 theorems closed under the global context. Tie: molecules, dimers, trimers (Nt 100..301 even and odd, dt 1-2 fs, "
+   note=TB + "All C11 theorems closed under the global context. Tie: molecules, dimers, trimers built with mult 1 and 2 (Nt 100..301 even and odd, dt 1-2 fs, "
         "couplings explicit or from geometry, a quarter with a supplied Redfield tensor), each re-run scaled, rotated and relabelled; the "
         "model fed the recorded hfft outputs, eigenvectors and dipoles reproduces .data within 1e-10 and the returned axis is compared "
         "with the pinned and repaired axis models (1e-12); independent Fourier integrals on both grids. from_dynamics and the mock "
